@@ -19,6 +19,7 @@ import YataProofs.Indicators.Keltner
 import YataProofs.Indicators.CMFRange
 import YataProofs.Indicators.MFIRange
 import YataProofs.Indicators.TSIndRange
+import YataProofs.Indicators.StochRange
 import YataProofs.Numeric.TSIRange
 import YataProofs.Numeric.MeanAbsDev
 namespace Yata.C12
@@ -127,6 +128,30 @@ theorem C12_trend_strength_range {P period ro : Nat} (zone : ℚ) (source : Sour
     xs [] s0 ⟨by simpa using hinv, hc⟩
   exact ⟨os, s', hr, hlen, hout⟩
 
+/-- Stochastic oscillator with hull-preserving averages (C15: every kind but HMA, DEMA, TEMA, LinReg; `C12_hull_kinds` gives
+    the two default kinds): both lines in [0, 1] after every step from a state whose histories are in [0, 1] — an
+    inductive invariant, so in every reachable state -/
+theorem C12_stochastic_reachable {P : Nat} {g1 g2 : List ℚ → ℚ} {highs lows krs f1s : List ℚ} {s : Stoch} (k : Candle ℚ) (v0 : ℚ)
+    (h : Stoch.Inv P g1 g2 highs lows krs f1s s) (hv0 : 0 ≤ v0 ∧ v0 ≤ 1) (hg1 : HullFn v0 g1) (hg2 : HullFn v0 g2)
+    (hk : Stoch.In01 krs) (hf : Stoch.In01 f1s) (hl : k.low ≤ k.close) (hh : k.close ≤ k.high) :
+    ∃ v1 v2 kr s', s.vals k none = .ok ([v1, v2], s') ∧
+      0 ≤ v1.value ∧ v1.value ≤ 1 ∧ 0 ≤ v2.value ∧ v2.value ≤ 1 ∧
+      Stoch.Inv P g1 g2 (highs ++ [k.high]) (lows ++ [k.low]) (krs ++ [kr]) (f1s ++ [v1.value]) s' ∧
+      Stoch.In01 (krs ++ [kr]) ∧ Stoch.In01 (f1s ++ [v1.value]) := Stoch.range_step k v0 h hv0 hg1 hg2 hk hf hl hh
+
+/-- RSI with hull-preserving averages: value in [0, 1] in every reachable state (gains ≥ 0, losses ≤ 0 is inductive) -/
+theorem C12_rsi_reachable {fp fn : List ℚ → ℚ} {gains losses : List ℚ} {s : RSI} (k : Candle ℚ)
+    (hp : Realises fp s.posma gains) (hn : Realises fn s.negma losses) (hfp : HullFn 0 fp) (hfn : HullFn 0 fn)
+    (hg : ∀ x ∈ gains, 0 ≤ x) (hl : ∀ x ∈ losses, x ≤ 0) :
+    ∃ v s' g l, s.vals k = .ok ([v], s') ∧ 0 ≤ v.value ∧ v.value ≤ 1 ∧
+      Realises fp s'.posma (gains ++ [g]) ∧ Realises fn s'.negma (losses ++ [l]) ∧
+      (∀ x ∈ gains ++ [g], 0 ≤ x) ∧ (∀ x ∈ losses ++ [l], x ≤ 0) := RSI.range_step k hp hn hfp hfn hg hl
+
+/-- the realised SMA and EMA are hull-preserving -/
+theorem C12_hull_kinds (n : Nat) (hn : 0 < n) (v a : ℚ) (h0 : 0 ≤ a) (h1 : a ≤ 1) :
+    HullFn v (fun h => Spec.mean n (lastN n (history n v h))) ∧ HullFn v (fun h => Spec.emaRec a v h) :=
+  ⟨hullFn_sma n hn v, hullFn_ema a v h0 h1⟩
+
 theorem C12_tr_nonneg (c : Candle ℚ) (p : ℚ) (h : c.low ≤ c.high) : 0 ≤ c.trClose p := tr_nonneg c p h
 
 theorem C12_clv_range (c : Candle ℚ) (h1 : c.low ≤ c.close) (h2 : c.close ≤ c.high) : -1 ≤ c.clv ∧ c.clv ≤ 1 :=
@@ -159,3 +184,6 @@ end Yata.C12
 #print axioms Yata.C12.C12_cmf_range
 #print axioms Yata.C12.C12_mfi_reachable
 #print axioms Yata.C12.C12_trend_strength_range
+#print axioms Yata.C12.C12_stochastic_reachable
+#print axioms Yata.C12.C12_rsi_reachable
+#print axioms Yata.C12.C12_hull_kinds
